@@ -193,7 +193,12 @@ class BatchBase(futures.FutureBase):
             debug.write("No items.", indent + 1)
 
     def to_str(self):
-        return str(self)
+        try:
+            return str(self)
+        except Exception:
+            # a user-defined __str__ / __repr__ of the batch failed: name the batch by its class
+            # (this text is only used by profiling / dumps)
+            return core_inspection.get_full_name(type(self))
 
     def dump_perf_stats(self, time_taken):
         self._total_time = time_taken
